@@ -37,8 +37,9 @@ def reference(out, row):
     maxcell = 0.0
     frem = dict(WD=1.0, NS=cfg["NS_ret"], BH=cfg["BH_ret_int"])
     cidx = dict(WD=0, NS=1, BH=2)
+    lo_s, hi_s = float(lo[0]), float(up[-1])      # only stars inside the stellar bins exist in the model (bins may cover part of the IMF's range)
     for j in range(len(g) - 1):
-        a, b = max(g[j], mto), g[j + 1]
+        a, b = max(g[j], mto, lo_s), min(g[j + 1], hi_s)
         if b <= a or a < cfg["m_breaks"][0]:
             if b <= max(a, cfg["m_breaks"][0]):
                 continue
@@ -128,6 +129,12 @@ def run(chk):
         cfg["want_ifmr_grid"] = GRID
         if len(cfgs) % 3 == 0:
             cfg["imf_ext"] = "extrapolate"       # the primary constructor with a user-built, extrapolating IMF object
+        if len(cfgs) % 4 == 1 and isinstance(cfg["nbins"], list) and "binning_breaks" not in cfg:
+            # stellar bins covering only part of the IMF's range: each bin still holds the IMF integrated over THAT bin
+            mb_ = cfg["m_breaks"]
+            bb_ = [mb_[0] * 2.0] + list(mb_[1:-1]) + [mb_[-1] * 0.6]
+            if all(y > x for x, y in zip(bb_, bb_[1:])):
+                cfg["binning_breaks"] = bb_
         cfgs.append(cfg)
     # dynamical ejection on top (no escape): at EVERY requested age the BH mass remaining is BH_ret_dyn times the closed-form BH mass
     # formed by then (the ejection is applied to each output row on its own)
@@ -139,25 +146,30 @@ def run(chk):
         cfg["want_ifmr_grid"] = GRID
         cfg.pop("imf_ext", None)
         ej_cfgs.append(cfg)
-    for out in FR.run_many(ej_cfgs):
+    full_ret = [dict(c, BH_ret_dyn=1.0) for c in ej_cfgs]
+    outs_e = FR.run_many(ej_cfgs + full_ret)
+    for out, outf in zip(outs_e[:len(ej_cfgs)], outs_e[len(ej_cfgs):]):
         cfg = {kk: v for kk, v in out["cfg"].items() if kk != "want_ifmr_grid"}
-        if "error" in out or not out["converged"]:
+        if "error" in out or not out["converged"] or "error" in outf or not outf["converged"]:
             chk.count("ejection runs that raised or did not converge (C04 / exempt)")
             continue
         chk.count("runs with dynamical ejection over several ages")
         chk.note_distinct(cfg)
         for row, t in enumerate(cfg["tout"]):
-            stars, refN, refM, mto, unb, cell = reference(out, row)
-            formed = float(refM[2].sum())
-            if unb > 1e-6 * max(cfg["N0"], 1.0) or formed <= 0:
+            stars, refN, refM, mto, unb, cell = reference(outf, row)
+            formed_cf = float(refM[2].sum())                 # closed form
+            formed = float(outf["Mr"][2][row].sum())         # the same model with full dynamical retention
+            if formed <= 0:
                 continue
             got = float(out["Mr"][2][row].sum())
             lightest = float(out["bins"][3][0][0])
             want = cfg["BH_ret_dyn"] * formed
-            if abs(got - want) > 4e-3 * formed + 0.2 * lightest:
+            # (the ejection is exact arithmetic on the formed BHs; 'retain less than a tenth of a lightest BH -> none' is the only other rule)
+            if abs(got - want) > 1e-9 * formed and not (got == 0 and want < 0.2 * lightest):
                 chk.fail("remnant mass per bin equals the IMF-weighted remnant mass of the progenitors whose remnant falls in that bin", dict(cfg=cfg, row=row, age=t),
-                         dict(cls="BH", total_remaining=got, closed_form_formed=formed, BH_ret_dyn=cfg["BH_ret_dyn"], expected_remaining=want))
-    chk.evaluations += len(ej_cfgs)
+                         dict(cls="BH", total_remaining=got, formed_with_full_retention=formed, closed_form_formed=formed_cf, BH_ret_dyn=cfg["BH_ret_dyn"],
+                              expected_remaining=want))
+    chk.evaluations += 2 * len(ej_cfgs)
     tight = [(dict(c), 1e-9) for c in cfgs[: (5 if chk.tier == "quick" else 30)]]
     outs = FR.run_many(cfgs + tight)
     base, tightened = outs[:len(cfgs)], outs[len(cfgs):]
